@@ -156,8 +156,19 @@ func c09Check(c c09Case) error {
 	if err := c09CheckFields(c.Header, &r.Header); err != nil {
 		return err
 	}
-	// (1) read + write back leaves the image unchanged
+	// (1) read + write back leaves the image unchanged - whatever read-only questions were asked in between
 	before := leafBytes(&r.Header)
+	_ = r.Header.Score(0x7FB0)
+	_ = r.Header.Score(0xFFB0)
+	_ = r.Header.HeaderVersion()
+	_ = snes.RegionNames[r.Header.DestinationCode]
+	if after := leafBytes(&r.Header); !reflect.DeepEqual(before, after) {
+		for k, v := range before {
+			if !bytes.Equal(v, after[k]) {
+				return fmt.Errorf("asking the parsed header for its Score / HeaderVersion changed field %s from [% x] to [% x]", k, v, after[k])
+			}
+		}
+	}
 	if err := r.WriteHeader(); err != nil {
 		return fmt.Errorf("ROM.WriteHeader: %v", err)
 	}
